@@ -34,6 +34,21 @@ Lemma set_neg_example :
     /\ read σ' (NLocal 1) = Some (VInt (-5) false) /\ read σ' (NLocal 0) = Some (VInt 5 false).
 Proof. vm_compute. eexists. repeat split; reflexivity. Qed.
 
+(* set var.v1 = -(if(true, +var.v0, 3));  the operand of the minus is var.v0's own cell reached through a
+   group, an if() expression and a unary plus: the repaired interpreter still leaves var.v0 alone *)
+Definition shaped_neg : expr :=
+  ENeg (EGroup (EIf (ELit (VBool true true)) (EPos (EVar (NLocal 0))) (ELit (VInt 3 true)))).
+Lemma set_neg_shapes_example :
+  exists σ', exec repaired std_ops [] 10 false (SSet (NLocal 1) AEq shaped_neg) σ_ab = OK (ONorm, σ')
+    /\ read σ' (NLocal 1) = Some (VInt (-5) false) /\ read σ' (NLocal 0) = Some (VInt 5 false).
+Proof. vm_compute. eexists. repeat split; reflexivity. Qed.
+
+(* ... and before the repair it did not *)
+Lemma neg_in_place_shapes_refutes :
+  exists l σ', eval original std_ops [] 10 lvar_mode shaped_neg σ_ab = OK (l, σ') /\
+               read σ' (NLocal 0) <> read σ_ab (NLocal 0).
+Proof. eexists _, _. split; [vm_compute; reflexivity|]. vm_compute. discriminate. Qed.
+
 (* call f0(var.v0);  the callee assigns 99 to its parameter: var.v0 is still 5 *)
 Lemma call_example :
   exists σ', exec repaired std_ops prog_f0 10 false (SCall 0 [EVar (NLocal 0)]) σ_ab = OK (ONorm, σ')
